@@ -87,6 +87,16 @@ example : mapFate Gen.mapSkipTest Gen.mapModelTest Gen.mapKeepTest "cash_loss".t
 equality test and is stored *rounded* like a scalar -/
 example : mapFate Gen.mapSkipTest Gen.mapModelTest Gen.mapKeepTest "model_a".toList = .rounded := by decide
 
+/-! ### where the fit starts and how its result is reported (structural facts regenerated from `find_MAP`) -/
+
+/-- the optimisation starts at the prior medians — a point that does not depend on the random key, the one the property's
+"at least as probable as the generating parameters" clause is calibrated for (a start drawn at random from the prior can
+land in the basin of a lower mode of a multi-component posterior) -/
+theorem repo_map_init_median : Gen.mapInitFn = "init_to_median" := by decide
+
+/-- returned values keep at least the five decimals the image clause (1e-3 of the peak) allows for -/
+theorem repo_map_round_decimals : 5 ≤ Gen.mapRoundDecimals := by decide
+
 /-! ### multi-source regrouping -/
 
 def paramsOfName (t : String) : List String := C12.lookupTable Gen.profileParamsPriors t
